@@ -77,7 +77,7 @@ func TestVerifC03Errno(t *testing.T) {
 	defer w.Flush()
 	seed, _ := strconv.ParseInt(os.Getenv("VERIF_SEED"), 10, 64)
 	r := rand.New(rand.NewSource(seed + 3))
-	n := 600
+	n := 400
 	if os.Getenv("VERIF_TIER") == "thorough" {
 		n = 12000
 	}
